@@ -192,13 +192,33 @@ def _worker(args):
             w = rng.choice([None, 0, 1, 2, 3, 0.5, 2.5])
             if w is not None:
                 H.edges[e]["weight"] = w
+        if (base + k) % 6 == 2 and all(j["e2n"]):
+            # the same matrices of a SimplicialComplex object (a hypergraph as well: its simplices are its edges)
+            S_ = xgi.SimplicialComplex()
+            S_.add_nodes_from(list(H.nodes))
+            with warnings.catch_warnings():
+                warnings.simplefilter("ignore")
+                for e_ in H.edges:
+                    S_.add_simplex(list(H._edge[e_]))
+            ids_ = {}
+
+            class GS:
+                name = g.name + "/as SimplicialComplex"
+                prev = None
+                inv_node = staticmethod(g.inv_node)
+                inv_attrs = staticmethod(g.inv_attrs)
+
+                @staticmethod
+                def inv_edge(x):
+                    return ids_.setdefault(x, len(ids_))
+            H, g, vname = S_, GS(), "complex"
         st, anom = proj_w(H, g)
         obs = observe(H, g)
         # one record per group of entries keeps single TLC evaluations small
         for c in range(0, len(obs), 40):
             out.append({"rid": f"s{base + k}.{c}", "what": f"matrices of shape {base + k} ({g.name}/{vname})", "st": st,
                         "obs": obs[c:c + 40]})
-        if k % 5 == 0 and obscore.rewire_in_place(H, rng):  # same object, edited, evaluated again
+        if k % 5 == 0 and not isinstance(H, xgi.SimplicialComplex) and obscore.rewire_in_place(H, rng):  # same object, edited, evaluated again
             st, anom = proj_w(H, g)
             obs = observe(H, g)
             for c in range(0, len(obs), 40):
